@@ -243,3 +243,73 @@ def r2_revisit(I):
     I.check('same_final_reserves_as_hop_by_hop', smt.And(smt.Eq(xr, x2), smt.Eq(yr, y2)))
     I.check('same_amount_back_as_hop_by_hop', smt.Eq(back_r, back))
     I.check('round_trip_not_profitable', back_r <= o)
+
+
+# ---------------------------------------------------------------- stableswap: small round trips on concrete pools
+# The Curve iterations are not encoded symbolically (DESIGN.md 10.4); on concrete pools and offers the executor runs them from the MIR as they are.
+# This obligation does not establish C03 for stableswap pools; it keeps a reproducible witness of the open finding C03-stableswap-dust-round-trip
+# and reports any OTHER way in which a small round trip on these pools becomes profitable or stops executing.
+
+DUST_SHAPES = [
+    # (reserves uA/uB, decimals, amp, denom offered first)
+    ((1000000123457, 999999876541), (6, 6), 85, 'uA'),
+    ((10 ** 12, 10 ** 24), (6, 18), 85, 'uB'),
+]
+DUST_OFFERS = [1, 2, 3, 1000]
+
+
+def _replay_dust(m):
+    res, decs, amp, first = DUST_SHAPES[m.get('_choices', {}).get('param:stable_dust_shape', 0)]
+    o = DUST_OFFERS[m['_choices']['offer']]
+    second = 'uB' if first == 'uA' else 'uA'
+    fees = (10 ** 15, 2 * 10 ** 15, 0, [])
+    steps = [{'op': 'set_pool', 'pool': pool_json('p1', ['uA', 'uB'], list(decs), list(res), {'stable_swap': {'amp': amp}}, fees)},
+             {'op': 'mint', 'to': 'pool_manager', 'funds': [coin_j('uA', res[0]), coin_j('uB', res[1])]},
+             {'op': 'mint', 'to': 'trader', 'funds': [coin_j(first, o)]},
+             {'op': 'execute', 'contract': 'pool_manager', 'sender': 'trader', 'funds': [coin_j(first, o)],
+              'msg': {'swap': {'ask_asset_denom': second, 'belief_price': None, 'max_slippage': None, 'receiver': None, 'pool_identifier': 'p1'}}}]
+    got = m.get('_obs', {}).get('note:got')
+    if got:
+        steps.append({'op': 'execute', 'contract': 'pool_manager', 'sender': 'trader', 'funds': [coin_j(second, got)],
+                      'msg': {'swap': {'ask_asset_denom': first, 'belief_price': None, 'max_slippage': None, 'receiver': None, 'pool_identifier': 'p1'}}})
+    return {'setup': {}, 'steps': steps}, len(steps) - 1
+
+
+@obligation('C03', 'D1.stableswap_small_round_trip', entries=['execute', 'swap::commands::swap', 'perform_swap', 'compute_swap', 'calculate_stableswap_y', 'compute_d'], kind='B',
+            statement='on a funded stableswap pool a trader swaps a small amount and swaps the proceeds back: never more comes back than went in '
+                      '(concrete pools and offers: a witness of the recorded finding, not a proof for stableswap pools)',
+            bounds='two concrete pools (6/6 decimals slightly off balance; 6/18 decimals balanced), amp 85, protocol 0.1% + swap 0.2% fee, offers 1, 2, 3, 1000 units; '
+                   'no symbolic input: every run is a concrete execution of the MIR, confirmed natively', covers=['round_trip'],
+            opts={'loop_bound': 300}, replay=generic_replay(_replay_dust))
+def d1(I):
+    res, decs, amp, first = I.param('stable_dust_shape', DUST_SHAPES)
+    o = DUST_OFFERS[I.choose(len(DUST_OFFERS), 'offer')]
+    second = 'uB' if first == 'uA' else 'uA'
+    pm_config(I)
+    put_pool(I, pool_info('p1', ['uA', 'uB'], list(decs), list(res), stable(amp), pool_fee(10 ** 15, 2 * 10 ** 15, 0)))
+    b = bank_of(I)
+    b.set(PM, 'uA', res[0]); b.set(PM, 'uB', res[1])
+    b.supply['uA'] = res[0]; b.supply['uB'] = res[1]
+    st1, r1 = _swap(I, 'p1', first, o, second)
+    if st1 != 'ok':
+        I.observe('status', 'err')
+        I.outcome('first_swap_refused')
+        return
+    got = r1.ret
+    I.observe('note:got', got)
+    if got == 0:
+        I.observe('status', 'ok')
+        I.cover('round_trip')
+        return
+    st2, r2 = _swap(I, 'p1', second, got, first)
+    I.observe('status', 'ok' if st2 == 'ok' else 'err')
+    I.cover('round_trip')
+    if st2 != 'ok':
+        I.outcome('second_swap_refused')
+        return
+    I.observe('bal:trader:' + first, r2.ret)
+    I.observe('bal:trader:' + second, 0)
+    observe_pool(I, 'p1')
+    # first legs that deliver at most 100 units, so that every fee (0.1% / 0.2%) floors to zero: the recorded finding C03-stableswap-dust-round-trip (the solver's y carries no safety margin);
+    # larger offers pay fees well above that one unit and must not be profitable
+    I.check('dust_round_trip_not_profitable' if got <= 100 else 'round_trip_not_profitable', r2.ret <= o)
